@@ -682,13 +682,8 @@ func (h *hist) step(c px.Context, st sx.Sexp) (res *entry, recv int, args []int)
 	}
 	recv = rn
 	isHash := r.kind != 'a'
-	if r.kind == 'm' {
-		switch op {
-		case "delete", "deleteall", "unique", "entries":
-			// these may answer the receiver itself, i.e. the mutable object under another pointer type
-			return marker("~"), recv, nil
-		}
-	}
+	// (since /repo 1d333d3 a MutableHashValue has its own Delete / DeleteAll / Entries / Unique answering a frozen copy: they
+	// are executed on it like on any hash — called on the value itself, never on the embedded Hash)
 	switch op {
 	case "add", "delete":
 		x, xa, ok := h.elem(a[1])
@@ -860,7 +855,7 @@ func (h *hist) step(c px.Context, st sx.Sexp) (res *entry, recv int, args []int)
 		case "values":
 			return call(func() { out = r.hash().Values() }), recv, nil
 		}
-		return call(func() { out = r.hash().Entries() }), recv, nil
+		return call(func() { out = r.v.(px.OrderedMap).Entries() }), recv, nil
 	case "ptype":
 		return call(func() { _ = r.v.PType().String() }), recv, nil
 	case "dtype":
@@ -1469,10 +1464,14 @@ func randHistory0(r *rand.Rand, length int) []sx.Sexp {
 			steps = append(steps, st("mput", n(m), randVal(r, 0), randElem(r, len(steps))))
 			m = len(steps) - 1
 			if r.Intn(2) == 0 {
-				steps = append(steps, st([]string{"slice", "keys", "values", "merge", "select", "sort"}[r.Intn(6)], n(m), n(0), n(1)))
+				steps = append(steps, st([]string{"slice", "keys", "values", "merge", "select", "sort", "unique", "entries", "delete", "deleteall"}[r.Intn(10)], n(m), n(0), n(1)))
 				last := steps[len(steps)-1]
 				switch last.Tag() {
-				case "keys", "values", "sort":
+				case "delete":
+					steps[len(steps)-1] = st("delete", n(m), randVal(r, 0))
+				case "deleteall":
+					steps[len(steps)-1] = st("deleteall", n(m), n(r.Intn(len(steps)-1)))
+				case "keys", "values", "sort", "unique", "entries":
 					steps[len(steps)-1] = st(last.Tag(), n(m))
 				case "merge":
 					steps[len(steps)-1] = st("merge", n(m), n(m))
